@@ -12,6 +12,14 @@ class Dispatcher:
         self._function_registry: Dict[Type, Callable] = {}
         self._name = None
 
+    def __copy__(self):
+        # one process-wide registry per built-in check: copies of a Check
+        # share it, they must not own a snapshot of it
+        return self
+
+    def __deepcopy__(self, memo):
+        return self
+
     def register(self, fn):
         # Get function signature
         self._name = fn.__name__
